@@ -10,3 +10,7 @@ import EEM.Lemmas.Curve
 import EEM.Bridge.Curve
 import EEM.Props.C11
 import EEM.Findings.C11
+import EEM.Gen.CaltrackTables
+import EEM.Model.Time
+import EEM.Model.Caltrack
+import EEM.Props.C18
